@@ -263,7 +263,7 @@ func TestC19(t *testing.T) {
 		c.FailIfViolations(t)
 	}
 
-	rapid.Check(t, func(rt *rapid.T) {
+	checkRapid(t, c, func(rt *rapid.T) {
 		ops := c19History(rt)
 		want := c19Model(ops)
 		c.Eval()
